@@ -134,6 +134,11 @@ pub fn install_panic_hook() {
         } else {
             "<non-string payload>".to_string()
         };
+        // panics raised by the harness itself (not inside the library under test or its
+        // dependencies) are bugs of the harness: make them visible
+        if loc.starts_with("src/") {
+            eprintln!("harness panic at {loc}: {msg}");
+        }
         LAST_PANIC.with(|p| *p.borrow_mut() = Some(format!("{loc}: {msg}")));
     }));
 }
